@@ -39,6 +39,7 @@ FUNCTIONS = {
     'C09': [('find_c09', 'find.tests_from_suite'), ('find_c15', 'options.get_options')],
     'C11': [('shuffle_c11', 'shuffle.Shuffle.global_setup')],
     'C15': [('find_c15', 'find.remove_stale_bytecode'), ('find_c15', 'options.get_options')],
+    'C20': [('digraph_c20', 'digraph.DiGraph.sccs')],
 }
 
 NATIVE = {p: p.lower() for p in ['C%02d' % i for i in range(1, 21)]}
@@ -203,5 +204,25 @@ MANIFEST = {
                 "start snapshot.",
         'note': COMMON_NOTE + "Assumed: threadsupport.enumerate()/sys._current_frames list exactly the running threads; "
                 "identity by ident (known finding: ident reuse within one test).",
+    },
+    'C20': {
+        'category': 'exploration',
+        'technique': "bounded stand-in (labelled bounded, NOT proved): run-time contract of DiGraph.sccs checked on the real "
+                     "code against an independent Warshall-closure oracle, exhaustively over small digraphs and on seeded "
+                     "random graphs; plus one contract-based deductive fragment: the default-mode filter block of sccs, "
+                     "extracted mechanically from the real source, verified by pyvc/z3 for every component and every "
+                     "neighbour map",
+        'text': "Bounded, not proved: the iterative Tarjan enumeration of DiGraph.sccs is beyond the home-made VC generator "
+                "(its invariant is the full Tarjan invariant over an explicit visit stack), so sentence 1 (each SCC exactly "
+                "once, partition of the nodes) is an exhaustive exploration of the real function within a stated bound: all "
+                "digraphs with self-loops on <= 3 nodes in all insertion orders, all 65536 digraphs on 4 nodes, seeded random "
+                "graphs on 5-9 nodes, hashable and id()-keyed nodes, edges to unknown nodes, nodes that never had "
+                "add_neighbors called; oracle = reachability closure. Sentence 2 (default mode yields exactly the components "
+                "with > 1 node or a self-loop) is additionally PROVED as a fragment contract on the real filter block "
+                "(no exception for any neighbour map, skipped iff trivial, yielded exactly once with exactly its nodes).",
+        'note': "Trusted for the fragment: pyvc, z3; neighbour sets abstracted to a membership predicate; _untransform_node "
+                "total on graph nodes. The partition / maximality claim beyond the explored bound is NOT decided.",
+        'explanation': "exploration of the real DiGraph.sccs against a Warshall oracle; the proof obligations listed under "
+                       "obligations/discharged cover only the default-mode filter fragment",
     },
 }
